@@ -11,6 +11,10 @@
 (2) Bounded histories through the real `resolve_dynamic_wires` (vf.symbit): opcode programs are forked through the solver,
     register labels / static label / min_int stay symbolic; the output circuit is replayed against an independent
     lifetime model (contracts/c22_alloc.py:check_history) whose label comparisons are decided by z3.
+(3) The same histories through the device preprocessing step `devices.preprocess.device_resolve_dynamic_wires`: without device
+    wires (1-3 static integer wires with SYMBOLIC labels appearing in arbitrary order; new labels must lie above every one of them)
+    and with device wire lists mixing free and static symbolic labels (dynamic wires come only from device wires the tape does
+    not use, in |0>); same lifetime model, plus "no dynamic wire lands on ANY static wire" and "static operations unchanged".
 """
 from __future__ import annotations
 
@@ -219,6 +223,65 @@ def history_work(item):
                        f"lifetime model decided by z3 for arbitrary distinct labels; no path violates the model"}]
 
 
+DEVICE_LAYOUTS = {  # device wire list as a pattern over f<k> (free device wires), o<k> (other static wires), s (the static wire of the gates)
+    "f0 s": ["f0", "s"], "s f0 f1": ["s", "f0", "f1"], "f0 o0 f1 s": ["f0", "o0", "f1", "s"], "o0 s f0": ["o0", "s", "f0"], "f1 s o0 f0 o1": ["f1", "s", "o0", "f0", "o1"],
+}
+
+
+def device_history_work(item):
+    """histories through devices.preprocess.device_resolve_dynamic_wires: (layout or None, number of other static wires, opcodes)"""
+    layout, n_other, n = item
+    name = f"device_resolve_dynamic_wires: histories of {n} opcodes + gate, " + (f"device wires [{layout}]" if layout else f"no device wires, {n_other + 1} static integer wires in arbitrary order")
+    _stub_measure()
+
+    def build(S):
+        static = S.int("static")
+        others = [S.int(f"o{k}") for k in range(n_other)]
+        free = [S.int(f"f{k}") for k in range(sum(1 for t in (DEVICE_LAYOUTS[layout] if layout else []) if t.startswith("f")))]
+        labs = [static] + others + free
+        if len(labs) > 1:
+            S.assume(z3.Distinct(*[x.z for x in labs]))
+        if layout:
+            env = {"s": static, **{f"o{k}": others[k] for k in range(n_other)}, **{f"f{k}": free[k] for k in range(len(free))}}
+            device = ("wires", [env[t] for t in DEVICE_LAYOUTS[layout]])
+        else:
+            device = ("none",)
+        codes = [S.int("c0", 0, 3).concretize(0, 3)] + [S.int(f"c{k}", 0, 6).concretize(0, 6) for k in range(1, n)] + [6]
+        allow = bool(S.bit("allow_resets"))
+        ok, reason = C.check_history(codes, [], [], None, allow, static, device=device, other_static=others)
+        return ok, reason, codes, allow
+
+    try:
+        paths = sb.explore(build, max_paths=200000)
+    except sb.PathLimit as e:
+        return [{"name": name, "status": INCONCLUSIVE, "detail": str(e), "symbols": ["labels"]}]
+    ts = 0.0
+    programs = set()
+    for S, (ok, reason, codes, allow) in paths:
+        ts += S.solver_s
+        programs.add((tuple(codes), allow))
+        if ok:
+            continue
+        s = z3.Solver()
+        s.add(*S.assume_)
+        s.add(*S.pathcond)
+        if s.check() != z3.sat:
+            return [{"name": name, "status": HARNESS_ERROR, "detail": "failing path not satisfiable"}]
+        vals = S.model_values(s.model())
+        payload = {"kind": "device_history", "item": list(item), "values": vals, "codes": list(codes), "allow_resets": allow, "claim": reason}
+        rok, obs = replay(payload)
+        payload["observed"] = obs
+        if rok:
+            return [{"name": name, "status": VIOLATED, "signature": f"device_history:{reason}", "symbols": sorted(vals), "queries": S.decisions,
+                     "solver": "z3:sat", "replay": payload, "detail": f"{reason}: reproduces concretely: {obs}"}]
+        return [{"name": name, "status": INCONCLUSIVE, "symbols": sorted(vals), "detail": f"{reason}: model does not reproduce concretely ({obs})"}]
+    return [{"name": name, "status": DISCHARGED, "queries": sum(S.decisions for S, _ in paths), "solver": "z3:unsat", "solver_s": round(ts, 3),
+             "time_s": round(ts, 3), "symbols": ["static and device wire labels (symbolic integers)", "opcodes", "allow_resets"],
+             "detail": f"{len(paths)} feasible paths covering {len(programs)} opcode programs; every label comparison of the real preprocessing step and of the "
+                       f"lifetime model decided by z3 for arbitrary distinct labels; no path violates the model"}]
+
+
+
 def _prove_paths(name, build, claims, kind, item):
     try:
         paths = sb.explore(build, max_paths=512)
@@ -261,6 +324,16 @@ def replay(p):
         zeroed, any_state = [vals[f"z{k}"] for k in range(nz)], [vals[f"a{k}"] for k in range(na)]
         ok, reason = C.check_history(list(p["codes"]), zeroed, any_state, vals.get("min_int") if has_min else None, bool(p["allow_resets"]), vals["static"])
         return (not ok), f"codes={p['codes']} zeroed={zeroed} any_state={any_state} min_int={vals.get('min_int') if has_min else None} static={vals['static']} allow_resets={p['allow_resets']}: {reason}"
+    if kind == "device_history":
+        layout, n_other, n = item
+        others = [vals[f"o{k}"] for k in range(n_other)]
+        if layout:
+            env = {"s": vals["static"], **{k: v for k, v in vals.items() if k[0] in "of" and k[1:].isdigit()}}
+            device = ("wires", [env[t] for t in DEVICE_LAYOUTS[layout]])
+        else:
+            device = ("none",)
+        ok, reason = C.check_history(list(p["codes"]), [], [], None, bool(p["allow_resets"]), vals["static"], device=device, other_static=others)
+        return (not ok), f"device_resolve_dynamic_wires, codes={p['codes']} static wires (tape order)={others + [vals['static']]} device wires={device[1] if layout else None} allow_resets={p['allow_resets']}: {reason}"
     nz, na, nl = item[:3]
     labs = [vals[f"w{k}"] for k in range(nz + na + nl)]
     zeroed, any_state, loaned = labs[:nz], labs[nz:nz + na], labs[nz + na:]
@@ -321,7 +394,9 @@ def run(ctx):
                              "allow_resets, requested state and restored free; min_int None or a symbolic integer above every label; ONE real get_wire / return_wire",
               histories="programs of <=4 (thorough: <=6) opcodes + a final gate over allocate(zero/any x restored) / deallocate newest/oldest / gate on all live wires + the static wire; "
                         "opcodes are forked through the solver (bounded-exhaustive), while the labels of the zeroed (0..2) / any_state (0..1) registers, the static wire and min_int are symbolic integers (pairwise distinct, min_int above all)",
-              outside="device preprocessing path (device_resolve_dynamic_wires), magic-state allocation, equality of simulation results with fresh wires, min_int chosen at or below a static label (user input)")
+              device="devices.preprocess.device_resolve_dynamic_wires with no device wires (1-3 static integer wires with symbolic labels in arbitrary tape order) and with device wire lists "
+                     "in 5 layouts of free / static labels: same lifetime model, registers as DOCUMENTED (device wires not in the tape; integers above every integer wire of the tape)",
+              outside="magic-state allocation, equality of simulation results with fresh wires, min_int chosen at or below a static label (user input)")
     ctx.assume("stub: measure(w, reset=True) inside resolve_dynamic_wires replaced by a marker operation",
                "restored=True is honoured as the user's promise that the wire is returned in its allocation state",
                "invariant of the inductive step: registers and loan table hold pairwise distinct labels, all below min_int (established by __init__ for distinct user registers, preserved by both steps -- proved here)",
@@ -339,3 +414,12 @@ def run(ctx):
     if not ctx.only or "hist" in ctx.only:
         ctx.shapes += len(hist)
         ctx.pmap(history_work, hist, timeout_each=900 if ctx.tier == "quick" else 3000)
+    n_dev = 3 if ctx.tier == "quick" else 4
+    dev = [(None, k, n) for k in (0, 1, 2) for n in range(1, n_dev + 1)]
+    dev += [(lay, sum(1 for t in pat if t.startswith("o")), n) for lay, pat in DEVICE_LAYOUTS.items() for n in range(1, n_dev + 1)]
+    if not ctx.only or "device" in ctx.only:
+        from pennylane.devices.preprocess import device_resolve_dynamic_wires
+
+        ctx.encode(device_resolve_dynamic_wires)
+        ctx.shapes += len(dev)
+        ctx.pmap(device_history_work, dev, timeout_each=900 if ctx.tier == "quick" else 3000)
